@@ -233,6 +233,9 @@ pub fn gen(rng: &mut Rng, focus: SFocus) -> ServerScn {
     if focus == SFocus::Deadlines && rng.chance(1) {
         return gen_mega(rng);
     }
+    if matches!(focus, SFocus::Deadlines | SFocus::Dups) && rng.chance(30) {
+        return gen_overdue_reuse(rng);
+    }
     if focus == SFocus::Limit && rng.chance(40) {
         return gen_prebusy(rng);
     }
@@ -445,6 +448,39 @@ pub fn gen(rng: &mut Rng, focus: SFocus) -> ServerScn {
         } else {
             vec![]
         },
+        pre_read: 0,
+    }
+}
+
+/// Two requests fall overdue inside one clock step, and in that same step the peer re-sends the id
+/// of one of them: the channel meets two expiries and the reused id in one poll.
+fn gen_overdue_reuse(rng: &mut Rng) -> ServerScn {
+    let mut script = Vec::new();
+    let mut handlers = Vec::new();
+    let d0 = rng.range(4, 6) as i64;
+    let d1 = d0 + rng.range(0, 2) as i64;
+    for d in [d0, d1] {
+        script.push(PeerAct { delay_ms: 0, kind: PeerKind::Req { id: IdRef::Fresh, deadline: Dl::Ms(d), sampled: false, untraced: false } });
+        handlers.push(HandlerPlan { steps: vec![if rng.chance(500) { HStep::Never } else { HStep::SleepMs(rng.range(15, 30)) }], err: false, run: RunMode::Execute });
+    }
+    let victim = rng.below(2) as usize;
+    // delivered while the clock is being stepped (it lands at the end of the step)
+    script.push(PeerAct { delay_ms: rng.range(4, 9), kind: PeerKind::Req { id: IdRef::DupOf(victim), deadline: Dl::Ms(1000), sampled: false, untraced: false } });
+    handlers.push(HandlerPlan { steps: vec![HStep::SleepMs(rng.range(1, 5))], err: false, run: RunMode::Execute });
+    ServerScn {
+        resp_buf: 100,
+        limit: None,
+        link: LinkCfg { cap: 0, coupled: true, sticky: true, faults: vec![], explicit_flush: false },
+        stalls: vec![],
+        script,
+        handlers,
+        eof_at_end: true,
+        drop_stream_at: None,
+        preempt_permille: 0,
+        subscriber: 0,
+        long: false,
+        spurious_permille: 0,
+        jumps: vec![(3, 12)],
         pre_read: 0,
     }
 }
@@ -1558,6 +1594,31 @@ pub fn check(scn: &ServerScn, log: &[Ev], sim: &Sim, node: u8) -> Vec<Violation>
         }
         if limit.is_some() && m.idles.iter().any(|(s, _)| stalled_at(*s) && samples.iter().rev().find(|x| x.0 < *s).map(|x| x.1 as usize >= limit.unwrap()).unwrap_or(false)) {
             sim.count("probe.idle_at_limit_with_unready_sink");
+        }
+    }
+
+    // ---- C08: one handler per id at a time. Whatever became of an earlier request with the same
+    // id (answered, cancelled, expired, dropped), its handler is gone by the time the channel is
+    // quiescent again after a later request with that id was handed out; a request reusing an id
+    // that is still in flight is ignored, so two live handlers for one id never coexist at a
+    // quiescent point.
+    'conc: for (iseq, _) in &m.idles {
+        if over.map(|o| o < *iseq).unwrap_or(false) || first_fail.map(|f| f.0 < *iseq).unwrap_or(false) {
+            continue;
+        }
+        let mut live: HashMap<u64, u64> = HashMap::new();
+        for i in m.incs.iter() {
+            if i.tag == u64::MAX || m.unclean.contains(&i.id) {
+                continue;
+            }
+            let started = i.handler_start.map(|s| s < *iseq).unwrap_or(false);
+            let gone = i.hdrop.map(|h| h.0 < *iseq).unwrap_or(false);
+            if started && !gone {
+                if let Some(other) = live.insert(i.id, i.tag) {
+                    v.push(viol("C08", "handler-count", &["concurrent"], format!("two handlers for id {} (tags {other} and {}) are alive at idle seq {iseq}: a request reusing an id is either ignored (the id is still in flight) or handed out after the earlier handler is gone", i.id, i.tag)));
+                    break 'conc;
+                }
+            }
         }
     }
 
